@@ -5,6 +5,8 @@ import (
 	"go/ast"
 	"go/token"
 	"go/types"
+	"sort"
+	"strings"
 )
 
 type okind int
@@ -1115,60 +1117,84 @@ func (x *Exec) invariantLoop(st *State, ls *loopSpec, inv []Clause) []outcome {
 	}
 	// 2b. dry run of one iteration to find effects hidden in callees
 	x.dryRunHavoc(h, ls)
-	// 3. assume the invariant
-	evalInv(h, "")
-	// decreases measure
-	var dec0 *Term
-	decC, hasDec := fr.c.LoopDec[ls.id]
-	if hasDec {
-		ce := x.localEnv(h)
-		ce.where = decC.Line
-		dec0 = ce.toIntTerm(ce.expr(decC.Expr))
-	}
 	var outs []outcome
 	var exits []*State
-	c := TrueT
-	if ls.cond != nil {
-		c = ls.cond(h)
-	}
-	// exit path
-	if !c.IsTrue() {
-		ex := h.fork()
-		ex.assume(Not(c))
-		exits = append(exits, ex)
-	}
-	// iteration path
-	if !c.IsFalse() {
-		it := h.fork()
-		it.assume(c)
-		if ls.pre != nil {
-			ls.pre(it)
+	// pointer variables that the body re-assigns (buffer swaps): the loop head is examined once per
+	// reachable pointer configuration
+	configs := x.pointerConfigs(h, ls, direct)
+	for _, cfg := range configs {
+		h := h.fork()
+		for o, v := range cfg {
+			h.vars[o] = v
 		}
-		for _, o := range x.execBlock(it, ls.body.List) {
-			switch {
-			case o.kind == oNormal || (o.kind == oContinue && (o.label == "" || o.label == ls.label)):
-				sts := []*State{o.st}
-				if ls.post != nil {
-					sts = nil
-					for _, po := range ls.post(o.st) {
-						sts = append(sts, po.st)
-					}
-				}
-				for _, s := range sts {
-					evalInv(s, "keep")
-					if hasDec {
-						ce := x.localEnv(s)
-						ce.where = decC.Line
-						d1 := ce.toIntTerm(ce.expr(decC.Expr))
-						x.addObl("dec", fmt.Sprintf("dec%s", ls.id), s, And(Le(IntC(0), dec0), Lt(d1, dec0)), decC.Line)
-					}
-				}
-			case o.kind == oBreak && (o.label == "" || o.label == ls.label):
-				exits = append(exits, o.st)
-			default:
-				outs = append(outs, o)
+		func() {
+	// 3. assume the invariant
+			evalInv(h, "")
+			// decreases measure
+			var dec0 *Term
+			decC, hasDec := fr.c.LoopDec[ls.id]
+			if hasDec {
+				ce := x.localEnv(h)
+				ce.where = decC.Line
+				dec0 = ce.toIntTerm(ce.expr(decC.Expr))
 			}
-		}
+			c := TrueT
+			if ls.cond != nil {
+				c = ls.cond(h)
+			}
+			// exit path
+			if !c.IsTrue() {
+				ex := h.fork()
+				ex.assume(Not(c))
+				exits = append(exits, ex)
+			}
+			// iteration path
+			if !c.IsFalse() {
+				it := h.fork()
+				it.assume(c)
+				if ls.pre != nil {
+					ls.pre(it)
+				}
+				for _, o := range x.execBlock(it, ls.body.List) {
+					switch {
+					case o.kind == oNormal || (o.kind == oContinue && (o.label == "" || o.label == ls.label)):
+						if fr.c != nil {
+							ae := x.localEnv(o.st)
+							for ai, ac := range fr.c.LoopAssert[ls.id] {
+								ae.where = ac.Line
+								t := ae.boolTerm(ae.expr(ac.Expr))
+								x.addObl("assert", fmt.Sprintf("assert%s.%d", ls.id, ai+1), o.st, t, ac.Line)
+								o.st.assume(t)
+							}
+							if len(fr.c.LoopUses[ls.id]) > 0 {
+								x.applyUses(x.localEnv(o.st), fr.c.LoopUses[ls.id], "loop"+ls.id)
+							}
+						}
+						sts := []*State{o.st}
+						if ls.post != nil {
+							sts = nil
+							for _, po := range ls.post(o.st) {
+								sts = append(sts, po.st)
+							}
+						}
+						for _, s := range sts {
+							evalInv(s, "keep")
+							if hasDec {
+								ce := x.localEnv(s)
+								ce.where = decC.Line
+								d1 := ce.toIntTerm(ce.expr(decC.Expr))
+								x.addObl("dec", fmt.Sprintf("dec%s", ls.id), s, And(Le(IntC(0), dec0), Lt(d1, dec0)), decC.Line)
+							}
+						}
+					case o.kind == oBreak && (o.label == "" || o.label == ls.label):
+						exits = append(exits, o.st)
+					default:
+						outs = append(outs, o)
+					}
+				}
+			}
+
+		}()
 	}
 	for _, s := range exits {
 		outs = append(outs, outcome{kind: oNormal, st: s})
@@ -1245,5 +1271,91 @@ func (x *Exec) entryEnv(s *State) *Env {
 
 func (x *Exec) gotoLabel(st *State, ls *ast.LabeledStmt, stmts []ast.Stmt, target, from int) []outcome {
 	unsupported("goto %s", ls.Label.Name)
+	return nil
+}
+
+// pointerConfigs: the assignments of allocations to re-assigned pointer variables that are reachable
+// at the loop head (found by iterating the body's effect on those variables).
+func (x *Exec) pointerConfigs(h *State, ls *loopSpec, direct map[types.Object]bool) []map[types.Object]Value {
+	var ptrs []types.Object
+	for o := range direct {
+		if _, ok := h.vars[o].(PtrV); ok {
+			ptrs = append(ptrs, o)
+		}
+	}
+	if len(ptrs) == 0 {
+		return []map[types.Object]Value{{}}
+	}
+	key := func(c map[types.Object]Value) string {
+		var ks []string
+		for _, o := range ptrs {
+			p := c[o].(PtrV)
+			ks = append(ks, fmt.Sprintf("%s=%d%v", o.Name(), p.Alloc, p.Path))
+		}
+		sort.Strings(ks)
+		return strings.Join(ks, ",")
+	}
+	cur := map[types.Object]Value{}
+	for _, o := range ptrs {
+		cur[o] = h.vars[o]
+	}
+	seen := map[string]bool{}
+	var out []map[types.Object]Value
+	x.inGlobalInit++
+	savedObls := len(x.Obls)
+	defer func() {
+		x.inGlobalInit--
+		x.Obls = x.Obls[:savedObls]
+	}()
+	for len(out) < 8 {
+		k := key(cur)
+		if seen[k] {
+			return out
+		}
+		seen[k] = true
+		out = append(out, cur)
+		d := h.fork()
+		for o, v := range cur {
+			d.vars[o] = v
+		}
+		if ls.cond != nil {
+			c := ls.cond(d)
+			if c.IsFalse() {
+				return out
+			}
+			d.assume(c)
+		}
+		if ls.pre != nil {
+			ls.pre(d)
+		}
+		var next map[types.Object]Value
+		for _, o := range x.execBlock(d, ls.body.List) {
+			if o.kind != oNormal && o.kind != oContinue {
+				continue
+			}
+			sts := []*State{o.st}
+			if ls.post != nil {
+				sts = nil
+				for _, po := range ls.post(o.st) {
+					sts = append(sts, po.st)
+				}
+			}
+			for _, s := range sts {
+				n := map[types.Object]Value{}
+				for _, p := range ptrs {
+					n[p] = s.vars[p]
+				}
+				if next != nil && key(next) != key(n) {
+					unsupported("%s: loop %s re-assigns pointers differently on different paths", x.pos(ls.stmt), ls.id)
+				}
+				next = n
+			}
+		}
+		if next == nil {
+			return out
+		}
+		cur = next
+	}
+	unsupported("%s: loop %s has too many pointer configurations", x.pos(ls.stmt), ls.id)
 	return nil
 }
